@@ -348,4 +348,5 @@ func TestDrive_C06(t *testing.T) {
 	}
 	w.Close("schedules of 8-52 atomic steps over 1-10 executions (plain, under Fallback/Timeout/Retry, async) and standalone callers sharing one bulkhead (maxConcurrency 0-4, max wait 0 / 1ns / 5ms / 1min / negative; every other context cancelled with a cause of the caller's own) in a virtual-time bubble: an execution reaches the bulkhead, an admitted execution's function finishes (success or failure), an execution's context is cancelled (while waiting or while holding), the clock advances (1ns, wait-1, wait, wait+1, random), standalone TryAcquirePermit / ReleasePermit. After every step the status of every execution (idle / waiting / holding / released / refused with ErrFull / cancelled with the context error); at the end the number of free permits is probed. Balance probes: executions arriving with a cancelled context; a hedge policy around the bulkhead (several attempts of one execution hold permits at once), around retry+bulkhead, a bulkhead around a full bulkhead, a function returning ErrFull itself: afterwards every permit must be free. Non-trivial = some execution held a permit and some execution waited; distinct by (configuration, schedule).", nil)
 	driveC06Probes(t)
+	driveSlowOnFullProbes(t)
 }
